@@ -17,7 +17,8 @@ fn gen_mn(rng: &mut Rng, big: bool) -> mackay_neal::Config {
     let ncols = rng.range(2, if big { 60 } else { 24 });
     // wr around the value that makes the construction feasible, sometimes tight, sometimes roomy
     let need = (ncols * wc).div_ceil(nrows);
-    let wr = match rng.below(4) { 0 => need, 1 => need + 1, 2 => need + 3, _ => need.max(1) + rng.below(3) };
+    // ... and sometimes infeasible (wr * nrows < wc * ncols): no run can succeed, whatever the policy
+    let wr = match rng.below(5) { 0 => need, 1 => need + 1, 2 => need + 3, 3 => need.saturating_sub(1).max(1), _ => need.max(1) + rng.below(3) };
     // odd requests too: "girth at least 5" means no 4-cycle, "at least 7" no 6-cycle (the search bound is min_girth - 1)
     let min_girth = match rng.below(7) { 0 => None, 1 => Some(4), 2 => Some(6), 3 => Some(5), 4 => Some(7), 5 => Some(3), _ => Some(8) };
     mackay_neal::Config {
